@@ -73,7 +73,7 @@ pub fn vary_field(base: &VoiceSpec, field: &str, pick: usize) -> Option<VoiceSpe
         "sampling-rate" => v.sampling_frequency = if base.sampling_frequency == 16000 { 22050 } else { 16000 },
         "frame-period" => v.frame_period = base.frame_period + 1 + pick % 3,
         "gv-off-context" => v.gv_off_context.push("*-xx+*".into()),
-        "fullcontext-version" => v.fullcontext_version = "1.1".into(),
+        "fullcontext-version" => v.fullcontext_version = if base.fullcontext_version == "1.1" { "1.2".into() } else { "1.1".into() },
         "option" if pick % 3 == 1 => {
             // same number of entries, one meaningful entry (non-zero stage or log gain) replaced by a
             // copy of another one: every entry of the odd voice also occurs in the others' list
@@ -157,7 +157,10 @@ pub fn vary_field(base: &VoiceSpec, field: &str, pick: usize) -> Option<VoiceSpe
         "gv-flag" => {
             let si = pick % 2;
             let s = &mut v.streams[si];
-            if s.use_gv {
+            if s.use_gv && pick % 3 == 1 {
+                // the flag alone: the GV data and its positions stay in the file
+                s.use_gv = false;
+            } else if s.use_gv {
                 s.use_gv = false;
                 s.gv = None;
             } else {
